@@ -1,16 +1,55 @@
 ------------------------------ MODULE MemImpl ------------------------------
 (* C13 - implementation-shaped model of the in-memory backend                                *)
-(* (internal/core/storage/memory: one map key -> {Value, Expiration}, Expiration zero = never, *)
-(* lazy expiry on access + periodic CleanupExpired), transcribed operation by operation, and   *)
-(* checked for refinement of the reference KVRef: for every reachable map and every operation  *)
-(* the answer and the resulting abstract store equal the reference's.                          *)
-(* Constants OldCAS / OldSetExp select the code as it was before the repairs recorded in       *)
-(* known_findings.json (0513ecc, 680debd): with them TLC reports the refinement violation.     *)
-EXTENDS KVRef
+(* (internal/core/storage/memory: one map key -> *{Value, Expiration} behind one RWMutex,      *)
+(* Expiration zero = never, lazy expiry on access + CleanupExpired, explicit or from the       *)
+(* StartCleanup ticker goroutine), transcribed CRITICAL SECTION by critical section, and       *)
+(* checked for refinement of the reference KVRef: in every reachable state - also between two   *)
+(* sections of a caller or of the sweep - the map read through "expired = absent" is the        *)
+(* reference store, and every operation would get the reference's answer.                      *)
+(*                                                                                            *)
+(* Processes:                                                                                  *)
+(*  - clients Procs: every operation is ONE section (it holds m.mu for its whole body) except  *)
+(*    GetExpiration / GetHash / GetAllHash, which answer under the read lock (section 1 - the  *)
+(*    linearization point) and, when they found the entry expired, come back under the write   *)
+(*    lock to evict it (section 2, RdEvict: look the key up again, evict only if still expired);*)
+(*  - sweepers Sweepers: "ex" = a caller of CleanupExpired (cleanup manager, hybrid storage,    *)
+(*    typed adapter), "bg" = the goroutine of StartCleanup (runs only while the ticker is on:   *)
+(*    tk = cleanupRunning; StopCleanup does not interrupt a sweep that has begun).             *)
+(*    The sweep is NOT an operation of the key-value model: the reference does not move.       *)
+(* Redis has no sweep (CleanupExpired is `return nil`, the server expires keys itself): on that *)
+(* backend the step is the identity, which is what KVRef!Apply gives "Sweep" on every backend.  *)
+(*                                                                                            *)
+(* Named deviations (constants; `MemImpl_show_*.cfg` make TLC exhibit each one):               *)
+(*  Sweep = "locked"         as-is: one write-locked section, test and delete together          *)
+(*          "scan_recheck"   two sections (scan under RLock, delete under Lock) that test each  *)
+(*                           recorded key again before deleting - correct; it is also the finest*)
+(*                           schedule structure a sweep can have, so the generator uses it      *)
+(*          "scan_norecheck" two sections, recorded keys deleted BY NAME (seeded C13-r4m1):     *)
+(*                           a write acknowledged between the sections is erased                *)
+(*          "scan_ptr"       two sections, deleted if the map still holds the scanned OBJECT:   *)
+(*                           wrong for the operations that re-initialise an expired item in     *)
+(*                           place (SetHash, IncrBy)                                            *)
+(*          "naive"          one section, but Now.After(exp) without the IsZero test: sweeps    *)
+(*                           never-expiring entries                                             *)
+(*          "any"            generator: a sweep is either "locked" or "scan_recheck"             *)
+(*  Evict = "recheck" as-is | "norecheck": section 2 of the evicting reads deletes by name      *)
+(*                           (seeded C13-r2m1)                                                  *)
+(*  LazyReads = FALSE as-is | TRUE: Get / Exists / GetList evict too (lazy deletion on every     *)
+(*                           read path) - harmless with Evict = "recheck", not with "norecheck"  *)
+(*  OldCAS / OldSetExp       the code before the repairs 0513ecc / 680debd (known_findings.json) *)
+EXTENDS KVRef, Json
 
-CONSTANTS Keys, Vals, MaxClock, OldCAS, OldSetExp
-VARIABLES data, clock, ref      \* ref = the reference store driven by the same operations
-vars == <<data, clock, ref>>
+CONSTANTS Keys, Vals, MaxClock, OldCAS, OldSetExp,
+          Procs, Sweepers, Sweep, Evict, LazyReads, Emit
+VARIABLES data,    \* the map m.data
+          clock,
+          ref,     \* the reference store driven by the same operations (at their linearization points)
+          pc,      \* client p: [at |-> "idle" | "evict", k]   (between the two sections of an evicting read)
+          sw,      \* sweeper s: [at |-> "idle" | "del", vic (keys recorded by the scan), moved (recorded keys whose map slot no longer holds the scanned object)]
+          tk,      \* cleanupRunning: the ticker goroutine exists
+          hist     \* generator only (Emit): the steps so far
+vars == <<data, clock, ref, pc, sw, tk, hist>>
+view == <<data, clock, ref, pc, sw, tk>>
 
 Ops == (IF \E k \in Keys : KeyType(k) = "str"  THEN StrOps({k \in Keys : KeyType(k) = "str"}, Vals) ELSE {})
   \cup (IF \E k \in Keys : KeyType(k) = "list" THEN ListOps({k \in Keys : KeyType(k) = "list"}, Vals) ELSE {})
@@ -19,10 +58,15 @@ Ops == (IF \E k \in Keys : KeyType(k) = "str"  THEN StrOps({k \in Keys : KeyType
 
 \* item = [p |-> in map, v, exp]; "time.Now().After(Expiration)" with a zero Expiration:
 Expired(it, now) == it.exp # 0 /\ now >= it.exp              \* !IsZero() && Now.After(exp)
-NaiveExpired(it, now) == now >= it.exp                        \* Now.After(exp) without the IsZero test (old CAS)
+NaiveExpired(it, now) == now >= it.exp                        \* Now.After(exp) without the IsZero test (old CAS, naive sweep)
 Exp(ttl, now) == IF ttl = "0" THEN 0 ELSE E(ttl, now)         \* ttl <= 0 -> zero time
 DefaultTTL == FAR                                                    \* constants.DefaultDataTTL
 
+\* read operations that come back under the write lock to evict an entry they found expired
+EvictOps == {"GetExp", "GetHash", "GetAllHash"} \cup (IF LazyReads THEN {"Get", "Exists", "GetList"} ELSE {})
+
+\* ---- one critical section of a client: what it does to the map and what it answers ----------
+\* (for the evicting reads this is section 1: the answer; the map is untouched)
 MemApply(d, now, o) ==
   LET k == o.k  it == d[k]
       put(v, exp) == [d EXCEPT ![k] = [p |-> TRUE, v |-> v, exp |-> exp]]
@@ -53,8 +97,7 @@ MemApply(d, now, o) ==
                  ELSE [st |-> put(it.v, IF o.ttl = "0" THEN now ELSE E(o.ttl, now)), res |-> OKR]
             ELSE IF gone THEN [st |-> del, res |-> NF]
                  ELSE [st |-> put(it.v, Exp(o.ttl, now)), res |-> OKR]
-       [] o.op = "GetExp"  -> IF gone THEN [st |-> del, res |-> NF]
-                              ELSE [st |-> d, res |-> R("ttl", TtlClass(it, now))]
+       [] o.op = "GetExp"  -> [st |-> d, res |-> IF gone THEN NF ELSE R("ttl", TtlClass(it, now))]
        [] o.op = "SetList" -> [st |-> put(o.vs, Exp(o.ttl, now)), res |-> OKR]
        [] o.op = "GetList" -> [st |-> d, res |-> R("list", IF gone THEN <<>> ELSE it.v)]
        [] o.op = "Append"  -> IF gone THEN [st |-> put(<<o.v>>, DefaultTTL), res |-> OKR]
@@ -64,26 +107,103 @@ MemApply(d, now, o) ==
                               ELSE [st |-> put(RemoveAll(it.v, o.v), it.exp), res |-> OKR]
        [] o.op = "SetHash" -> IF gone THEN [st |-> put(HSet(<<>>, o.f, o.v), DefaultTTL), res |-> OKR]
                               ELSE [st |-> put(HSet(it.v, o.f, o.v), it.exp), res |-> OKR]
-       [] o.op = "GetHash" -> IF gone THEN [st |-> (IF it.p THEN del ELSE d), res |-> NF]
-                              ELSE [st |-> d, res |-> IF o.f \in DOMAIN it.v THEN R("val", it.v[o.f]) ELSE NF]
-       [] o.op = "GetAllHash" -> IF gone THEN [st |-> (IF it.p THEN del ELSE d), res |-> R("pairs", <<>>)]
-                                 ELSE [st |-> d, res |-> R("pairs", Pairs(it.v))]
+       [] o.op = "GetHash" -> [st |-> d, res |-> IF gone THEN NF ELSE IF o.f \in DOMAIN it.v THEN R("val", it.v[o.f]) ELSE NF]
+       [] o.op = "GetAllHash" -> [st |-> d, res |-> R("pairs", IF gone THEN <<>> ELSE Pairs(it.v))]
        [] o.op = "DelHash" -> IF ~it.p THEN [st |-> d, res |-> OKR]
                               ELSE IF Expired(it, now) THEN [st |-> del, res |-> OKR]
                               ELSE [st |-> put(HDel(it.v, o.f), it.exp), res |-> OKR]
        [] o.op = "IncrBy"  -> IF gone THEN [st |-> put(o.n, DefaultTTL), res |-> R("int", o.n)]
                               ELSE [st |-> put(it.v + o.n, it.exp), res |-> R("int", it.v + o.n)]
 
-Init == data = [k \in Keys |-> NoneOf(k)] /\ ref = [k \in Keys |-> NoneOf(k)] /\ clock = 0
+\* does the map slot of o.k still hold the SAME *StorageItem after the section?  (only the
+\* "scan_ptr" sweep asks; SetHash and IncrBy re-initialise an expired item in place, every other
+\* operation that meets an expired item deletes it or installs a new one)
+KeepsObj(it, now, o) ==
+  LET live == it.p /\ ~Expired(it, now)
+  IN CASE o.op \in {"Get", "Exists", "GetList", "GetExp", "GetHash", "GetAllHash"} -> TRUE
+       [] o.op \in {"Set", "SetList", "Delete"} -> FALSE
+       [] o.op \in {"SetHash", "IncrBy"} -> it.p
+       [] OTHER -> live      \* SetNX (refused) / CAS / Append / Remove / DelHash / SetExp on a live item: in place or untouched
+
+Idle == [at |-> "idle", k |-> ""]
+SwIdle == [at |-> "idle", vic |-> {}, moved |-> {}]
+Track == Sweep = "scan_ptr"
+\* keys K lost their object: tell every sweeper that recorded them
+Moved(K) == [s \in Sweepers |-> IF Track THEN [sw[s] EXCEPT !.moved = @ \cup (K \cap sw[s].vic)] ELSE sw[s]]
+
+Init == /\ data = [k \in Keys |-> NoneOf(k)] /\ ref = [k \in Keys |-> NoneOf(k)] /\ clock = 0
+        /\ pc = [p \in Procs |-> Idle] /\ sw = [s \in Sweepers |-> SwIdle] /\ tk = FALSE /\ hist = <<>>
 
 Small(st) == \A k \in Keys : /\ KeyType(k) = "list" => Len(st[k].v) <= 3
                              /\ KeyType(k) = "ctr"  => st[k].v <= 4
-DoOp(o) == LET m == MemApply(data, clock, o)  r == Apply(ref, clock, o)
-           IN Small(r.st) /\ data' = m.st /\ ref' = r.st /\ clock' = clock
-Tick == clock < MaxClock /\ clock' = clock + 1 /\ UNCHANGED <<data, ref>>
-Cleanup == /\ data' = [k \in Keys |-> IF data[k].p /\ Expired(data[k], clock) THEN NoneOf(k) ELSE data[k]]
-           /\ UNCHANGED <<ref, clock>>
-Next == Tick \/ Cleanup \/ \E o \in Ops : DoOp(o)
+
+Rec(x) == IF Emit THEN Append(hist, x) ELSE hist
+Out(h, want) == IF Emit /\ want THEN PrintT("BEH " \o ToJson(h)) ELSE TRUE
+SweepInFlight == \E s \in Sweepers : sw[s].at = "del"
+
+\* ---- clients ---------------------------------------------------------------------------------
+DoOp(p, o) ==
+  /\ pc[p].at = "idle"
+  /\ LET m == MemApply(data, clock, o)  r == Apply(ref, clock, o)
+         ev == o.op \in EvictOps /\ data[o.k].p /\ Expired(data[o.k], clock)
+     IN /\ Small(r.st) /\ data' = m.st /\ ref' = r.st
+        /\ pc' = [pc EXCEPT ![p] = IF ev THEN [at |-> "evict", k |-> o.k] ELSE Idle]
+        /\ sw' = IF KeepsObj(data[o.k], clock, o) THEN sw ELSE Moved({o.k})
+        /\ hist' = Rec(o @@ [exp |-> r.res, p |-> p])
+        \* generator: an operation that lands while a sweep is between its scan and its delete
+        /\ Out(hist', SweepInFlight)
+  /\ UNCHANGED <<clock, tk>>
+
+\* section 2 of GetExpiration / GetHash / GetAllHash on an entry found expired in section 1
+RdEvict(p) ==
+  /\ pc[p].at = "evict"
+  /\ LET k == pc[p].k  it == data[k]
+         del == IF Evict = "recheck" THEN it.p /\ Expired(it, clock) ELSE TRUE
+     IN /\ data' = IF del THEN [data EXCEPT ![k] = NoneOf(k)] ELSE data
+        /\ sw' = IF del THEN Moved({k}) ELSE sw
+  /\ pc' = [pc EXCEPT ![p] = Idle]
+  /\ hist' = Rec([op |-> "Evict", p |-> p])
+  /\ UNCHANGED <<clock, ref, tk>>
+
+\* ---- the sweep ---------------------------------------------------------------------------------
+CanRun(s) == s # "bg" \/ tk
+\* CleanupExpired as it is: everything under one write lock
+SweepLocked(s) ==
+  /\ Sweep \in {"locked", "naive", "any"} /\ sw[s].at = "idle" /\ CanRun(s)
+  /\ LET dead == {k \in Keys : data[k].p /\ (IF Sweep = "naive" THEN NaiveExpired(data[k], clock) ELSE Expired(data[k], clock))}
+     IN data' = [k \in Keys |-> IF k \in dead THEN NoneOf(k) ELSE data[k]]
+  /\ hist' = Rec([op |-> "Sweep", s |-> s])
+  /\ Out(hist', TRUE)
+  /\ UNCHANGED <<clock, ref, pc, sw, tk>>
+\* the two-section variants: scan under the read lock ...
+SweepScan(s) ==
+  /\ Sweep \in {"scan_recheck", "scan_norecheck", "scan_ptr", "any"} /\ sw[s].at = "idle" /\ CanRun(s)
+  /\ LET vic == {k \in Keys : data[k].p /\ Expired(data[k], clock)}
+     IN /\ vic # {}                               \* nothing recorded: the sweep returns
+        /\ sw' = [sw EXCEPT ![s] = [at |-> "del", vic |-> vic, moved |-> {}]]
+  /\ hist' = Rec([op |-> "SweepScan", s |-> s])
+  /\ UNCHANGED <<data, clock, ref, pc, tk>>
+\* ... delete under the write lock
+SweepDel(s) ==
+  /\ sw[s].at = "del"
+  /\ LET del(k) == CASE Sweep = "scan_norecheck" -> TRUE
+                     [] Sweep \in {"scan_recheck", "any"} -> data[k].p /\ Expired(data[k], clock)
+                     [] Sweep = "scan_ptr"       -> data[k].p /\ k \notin sw[s].moved
+         dead == {k \in sw[s].vic : del(k)}
+     IN /\ data' = [k \in Keys |-> IF k \in dead THEN NoneOf(k) ELSE data[k]]
+        /\ sw' = [Moved(dead) EXCEPT ![s] = SwIdle]
+  /\ hist' = Rec([op |-> "SweepDel", s |-> s])
+  /\ UNCHANGED <<clock, ref, pc, tk>>
+\* StartCleanup / StopCleanup: at most one ticker goroutine (cleanupRunning)
+StartCleanup == "bg" \in Sweepers /\ ~tk /\ tk' = TRUE  /\ hist' = Rec([op |-> "StartCleanup"]) /\ UNCHANGED <<data, clock, ref, pc, sw>>
+StopCleanup  == "bg" \in Sweepers /\ tk  /\ tk' = FALSE /\ hist' = Rec([op |-> "StopCleanup"])  /\ UNCHANGED <<data, clock, ref, pc, sw>>
+
+Tick == clock < MaxClock /\ clock' = clock + 1 /\ hist' = Rec([op |-> "Tick"]) /\ UNCHANGED <<data, ref, pc, sw, tk>>
+
+Silent == \/ \E p \in Procs : RdEvict(p)
+          \/ \E s \in Sweepers : SweepLocked(s) \/ SweepScan(s) \/ SweepDel(s)
+          \/ StartCleanup \/ StopCleanup
+Next == Tick \/ Silent \/ \E p \in Procs, o \in Ops : DoOp(p, o)
 Spec == Init /\ [][Next]_vars
 
 \* ---- refinement: the map, read through "expired = absent", is the reference store -------
@@ -92,4 +212,18 @@ AbsEq(k) == LET a == data[k]  b == ref[k]
             IN la = lb /\ (la => (a.v = b.v /\ TtlClass(a, clock) = TtlClass(b, clock)))
 StoresAgree == \A k \in Keys : AbsEq(k)
 AnswersAgree == \A o \in Ops : Same(o, Apply(ref, clock, o).res, MemApply(data, clock, o).res)
+
+\* the clause the sweep deviations break, in the statement's words: an acknowledged write of a
+\* never-expiring value stays in the map until a Delete / overwrite (the reference moves only then)
+NeverExpiringStays == \A k \in Keys : (ref[k].p /\ ref[k].exp = 0) => (data[k].p /\ data[k].exp = 0 /\ data[k].v = ref[k].v)
+
+\* a step that is not an operation (second section of a read, any section of the sweep, the ticker
+\* switch) removes only entries that are expired at the instant of removal, and changes nothing else
+Abs(d, now, k) == IF d[k].p /\ ~Expired(d[k], now) THEN d[k] ELSE NoneOf(k)
+SilentInvisible == [][Silent => \A k \in Keys : Abs(data', clock, k) = Abs(data, clock, k)]_vars
+
+TypeOK == /\ clock \in 0..MaxClock /\ tk \in BOOLEAN
+          /\ \A k \in Keys : data[k].p \in BOOLEAN /\ data[k].exp \in Nat
+          /\ \A p \in Procs : pc[p].at \in {"idle", "evict"} /\ (pc[p].at = "evict" => pc[p].k \in Keys)
+          /\ \A s \in Sweepers : sw[s].at \in {"idle", "del"} /\ sw[s].moved \subseteq sw[s].vic /\ sw[s].vic \subseteq Keys
 =============================================================================
